@@ -594,6 +594,29 @@ func checkC09(c *Check, p *Program) {
 		}
 		c.Decide(onDone || viaRes, "C09.H6", pn+" clean end only on done or an accepted disconnect response", p.InstrPos(r), "nil result behind <-done or handler == nil in the *DiscRes case", "processing can end cleanly (terminating the tunnel without reconnect) for another reason")
 	}
+	// every other exit of the processing function (neither clean, nor one of the two sentinels that make serve
+	// reconnect) ends the tunnel for good: admissible only when the socket's receiver has terminated, i.e. behind the
+	// comma-ok receive from the socket reporting a closed channel
+	okv := selectRecvOK(sel)
+	nOther := 0
+	for _, r := range returnsOf(t.process) {
+		if p.returnMayBeNil(r, 0) {
+			continue
+		}
+		sentinel := false
+		for _, v := range resultValues(r, 0) {
+			if isGlobalLoad(v, gDisc) || isGlobalLoad(v, gFailed) {
+				sentinel = true
+			}
+		}
+		if sentinel {
+			continue
+		}
+		nOther++
+		closed := okv != nil && anyFact(factsAt(r.Block()), func(f Cmp) bool { return cmpIsBool(f, false, func(v ssa.Value) bool { return v == okv }) })
+		c.Decide(closed, "C09.H6", pn+" ends for good only when the socket is closed", p.InstrPos(r), "behind the comma-ok receive from the socket reporting a closed channel", "processing (and with it the tunnel) can end with an error that does not lead to a reconnect although the socket's receiver is alive: a received frame terminates the tunnel")
+	}
+	c.Floor("C09.H6", "terminal error exits of the processing function", nOther, 1)
 	c.Decide(nViaRes == 1, "C09.H6", pn+" accepted disconnect response ends processing", p.Pos(t.process.Pos()), "one nil return behind the accepted response", fmt.Sprintf("%d nil returns behind an accepted disconnect response (expected 1): the tunnel does not terminate on it", nViaRes))
 	checkHandlerOutcome(c, p, "C09.H6", t.process, sel, t.discResH, true, "a foreign-channel disconnect response")
 
